@@ -108,6 +108,7 @@ func runLeader(ref *reference, hist string, crashAt int64, trace bool) (out outc
 		closeLC(lc, obs)
 		return fail("step-error:election", "initial election: %v", err)
 	}
+	out.openOps = cfs.n.Load()
 	w := 0
 	acked := 0
 	alive := true
